@@ -186,6 +186,9 @@ _MATH["weakref.WeakKeyDictionary"] = dict
 _MATH["weakref.WeakValueDictionary"] = dict
 _MATH["weakref.WeakSet"] = set
 _MATH["collections.OrderedDict"] = dict
+import collections as _coll
+_MATH["collections.namedtuple"] = lambda *a, **k: (
+    "pyfunc", _coll.namedtuple(*a, **k))
 # pure functions that only store or pass on their arguments: abstract
 # values may go through them
 _TRANSPARENT = {"enumerate", "zip", "reversed", "list", "tuple", "sorted",
@@ -445,6 +448,8 @@ class Evaluator:
                 "format"):
             v = getattr(base, attr)
             return ("pyfunc", v) if callable(v) else v
+        if isinstance(base, tuple) and attr in getattr(base, "_fields", ()):
+            return getattr(base, attr)      # a namedtuple's field
         # immutable builtins: every public method is pure
         if type(base) in (str, bytes, tuple, int, float, frozenset) and \
                 not attr.startswith("_") and hasattr(base, attr):
@@ -807,7 +812,12 @@ class Evaluator:
         if isinstance(target, ast.Name):
             env[target.id] = value
         elif isinstance(target, (ast.Tuple, ast.List)):
-            vals = list(value)
+            if isinstance(value, (Obj, Opaque, ClassRef, EnumVal)):
+                raise Unknown("unpacking an abstract value")
+            try:
+                vals = list(value)
+            except TypeError as e:
+                raise Raised(f"TypeError: {e}")
             star = [i for i, t in enumerate(target.elts)
                     if isinstance(t, ast.Starred)]
             if star:
@@ -903,6 +913,12 @@ class Evaluator:
                         raise Raised("TypeError: object cannot be "
                                      "interpreted as an integer")
                     return self.call(m, [])
+                if f[1] in (list, tuple, len, sorted, reversed, enumerate,
+                            set, frozenset, iter):
+                    # iterating an Enum class: its members as declared
+                    args = [list(self.enum_members(a.ci).values())
+                            if isinstance(a, ClassRef) and self.is_enum(a.ci)
+                            else a for a in args]
                 container = isinstance(getattr(f[1], "__self__", None),
                                        (list, dict, set))
                 if not container and any(
@@ -919,7 +935,7 @@ class Evaluator:
                               else v) for k, v in kwargs.items()}
                 try:
                     return f[1](*conv, **kwargs)
-                except Unknown:
+                except (Unknown, Raised):
                     raise
                 except Exception as e:
                     raise Raised(f"{type(e).__name__}: {e}")
@@ -1137,6 +1153,8 @@ class Evaluator:
             return ("continue",)
         if isinstance(s, (ast.For, ast.AsyncFor)):
             it = self.eval(s.iter, env)
+            if isinstance(it, ClassRef) and self.is_enum(it.ci):
+                it = list(self.enum_members(it.ci).values())
             if isinstance(it, (Obj, Opaque, ClassRef)) or (
                     isinstance(it, tuple) and it and isinstance(it[0], str)
                     and it[0] in ("function", "pyfunc", "method", "ext")):
